@@ -61,6 +61,13 @@ class Module(object):
             raise AnalysisError("anchor vanished: %s:%s" % (self.rel, qual))
         return self.funcs[qual]
 
+    def ifunc(self, qual, depth=2, keep=()):
+        """func(qual) with same-module helpers inlined (see inlined()); helpers named in keep stay calls"""
+        key = (qual, depth, tuple(keep))
+        if key not in self.__dict__.setdefault("_inl", {}):
+            self._inl[key] = inlined(self, self.func(qual), depth, keep)
+        return self._inl[key]
+
     def cls(self, name):
         if name not in self.classes:
             raise AnalysisError("anchor vanished: class %s in %s" % (name, self.rel))
@@ -152,6 +159,290 @@ def closure_walk(mod, node, depth=2):
     for h in local_callees(mod, node, depth):
         for x in ast.walk(h):
             yield x
+
+
+# --------------------------------------------------------------------------------------------------
+# helper inlining: a rule written against one function body keeps working when part of that body is extracted into a
+# same-module helper (the commonest behaviour-preserving refactoring).  Purely syntactic, conservative: anything not understood is
+# left as the call it was.
+def _helper_of(mod, call, owner):
+    """(helper FunctionDef, is_method) for f(...), self.f(...), cls.f(...), Class.f(...) resolved in the same module"""
+    f = call.func
+    if isinstance(f, ast.Name):
+        t = mod.funcs.get(f.id)
+        return (t, False) if t is not None else (None, False)
+    if isinstance(f, ast.Attribute) and isinstance(f.value, ast.Name):
+        base, meth = f.value.id, f.attr
+        if base in ("self", "cls") and owner is not None:
+            t = mod.funcs.get("%s.%s" % (owner.name, meth))
+            if t is not None:
+                static = any(src(d) in ("staticmethod",) for d in t.decorator_list)
+                return t, not static
+        t = mod.funcs.get("%s.%s" % (base, meth))
+        if t is not None and any(src(d) in ("staticmethod",) for d in t.decorator_list):
+            return t, False
+    return None, False
+
+
+def _bind_args(h, call, is_method):
+    """param name -> argument node, or None when the call does not bind plainly"""
+    a = h.args
+    if a.vararg or a.kwarg or a.kwonlyargs or a.posonlyargs:
+        return None
+    if any(isinstance(x, ast.Starred) for x in call.args) or any(k.arg is None for k in call.keywords):
+        return None
+    params = [x.arg for x in a.args]
+    bound = {}
+    if is_method:
+        if not params:
+            return None
+        bound[params[0]] = call.func.value
+        params = params[1:]
+    if len(call.args) > len(params):
+        return None
+    for p, v in zip(params, call.args):
+        bound[p] = v
+    for k in call.keywords:
+        if k.arg not in params or k.arg in bound:
+            return None
+        bound[k.arg] = k.value
+    ndef = len(a.defaults)
+    defaults = dict(zip([x.arg for x in a.args][len(a.args) - ndef:], a.defaults))
+    for p in params:
+        if p not in bound:
+            if p not in defaults:
+                return None
+            bound[p] = defaults[p]
+    return bound
+
+
+def _simple_arg(n):
+    return isinstance(n, (ast.Name, ast.Constant, ast.Attribute)) or (
+        isinstance(n, ast.Subscript) and _simple_arg(n.value) and all(isinstance(x, (ast.Name, ast.Constant, ast.Slice, ast.Attribute, ast.BinOp, ast.UnaryOp, ast.Tuple))
+                                                                      or x is None for x in ast.walk(n.slice) if isinstance(x, ast.expr)))
+
+
+def _stored_names(node):
+    out = set()
+    for x in ast.walk(node):
+        if isinstance(x, ast.Name) and isinstance(x.ctx, (ast.Store, ast.Del)):
+            out.add(x.id)
+        elif isinstance(x, (ast.Global, ast.Nonlocal)):
+            out.update(x.names)
+        elif isinstance(x, ast.arg):
+            out.add(x.arg)
+    return out
+
+
+class _Subst(ast.NodeTransformer):
+    def __init__(self, mapping):
+        self.m = mapping
+
+    def visit_Name(self, n):
+        if n.id in self.m and isinstance(n.ctx, ast.Load):
+            import copy
+            return copy.deepcopy(self.m[n.id])
+        if n.id in self.m and isinstance(self.m[n.id], ast.Name):
+            return ast.copy_location(ast.Name(id=self.m[n.id].id, ctx=n.ctx), n)
+        return n
+
+    def visit_Lambda(self, n):
+        return n if {a.arg for a in n.args.args} & set(self.m) else self.generic_visit(n)
+
+
+def _tail_returns(stmts, mk):
+    """rewrite a helper body whose returns are all in tail position into statements that hand the value to mk(value) instead;
+    None when a return sits anywhere else (inside a loop, try, with)"""
+    import copy
+    stmts = list(stmts)
+    if stmts and isinstance(stmts[0], ast.Expr) and isinstance(stmts[0].value, ast.Constant) and isinstance(stmts[0].value.value, str):
+        stmts = stmts[1:]
+    out = []
+    for k, st in enumerate(stmts):
+        last = k == len(stmts) - 1
+        has_ret = any(isinstance(x, ast.Return) for x in ast.walk(st)) and not isinstance(st, (ast.FunctionDef, ast.ClassDef))
+        if isinstance(st, ast.Return):
+            out += mk(st.value)
+            return out          # anything after a return is dead
+        if not has_ret:
+            out.append(st)
+            continue
+        if isinstance(st, ast.If):
+            rest = stmts[k + 1:]
+            body_ends = _always_returns(st.body)
+            else_ends = _always_returns(st.orelse) if st.orelse else False
+            if body_ends and not st.orelse:
+                b = _tail_returns(st.body, mk)
+                o = _tail_returns(rest, mk) if rest else mk(None)
+            elif body_ends and else_ends:
+                b, o = _tail_returns(st.body, mk), _tail_returns(st.orelse, mk)
+            elif st.orelse and else_ends and not any(isinstance(x, ast.Return) for s2 in st.body for x in ast.walk(s2)):
+                o = _tail_returns(st.orelse, mk)
+                b = _tail_returns(list(st.body) + rest, mk)
+            elif body_ends and st.orelse and not any(isinstance(x, ast.Return) for s2 in st.orelse for x in ast.walk(s2)):
+                b = _tail_returns(st.body, mk)
+                o = _tail_returns(list(st.orelse) + rest, mk)
+            else:
+                return None
+            if b is None or o is None:
+                return None
+            n = ast.If(test=st.test, body=b or [ast.Pass()], orelse=o)
+            out.append(ast.copy_location(n, st))
+            return out
+        return None
+    out += mk(None) if mk is not None and not _always_returns(stmts) else []
+    return out
+
+
+def _always_returns(stmts):
+    if not stmts:
+        return False
+    last = stmts[-1]
+    if isinstance(last, (ast.Return, ast.Raise)):
+        return True
+    if isinstance(last, ast.If) and last.orelse:
+        return _always_returns(last.body) and _always_returns(last.orelse)
+    return False
+
+
+def inlined(mod, fn, depth=2, keep=()):
+    """copy of function `fn` in which calls of same-module helpers are replaced by the helper's code:
+      - a helper that is one 'return <expr>' is substituted as an expression wherever it is called;
+      - 'helper(...)' as a statement, 'x = helper(...)', 'x op= helper(...)' and 'return helper(...)' are replaced by the helper's
+        statements when its returns are in tail position.
+    Parameters are substituted by the argument expressions (only plain names / attributes / constants / subscripts, and only when
+    the helper never rebinds the parameter); the helper's other locals are renamed when they collide with a name of the caller.
+    Helpers named in `keep` stay calls (the rule wants to see them).  Line numbers of inlined code are call_line + k * 1e-4 so that source order is preserved."""
+    import copy
+    owner = None
+    n = fn
+    while n is not None:
+        if isinstance(n, ast.ClassDef):
+            owner = n
+            break
+        n = getattr(n, "_parent", None)
+    new = copy.deepcopy(fn)
+    counter = [0]
+
+    def prepare(call, want_expr):
+        h, is_method = _helper_of(mod, call, owner)
+        if h is None or h is fn or h.name == fn.name or h.name in keep:
+            return None
+        if any(isinstance(x, (ast.Yield, ast.YieldFrom, ast.Await, ast.Global, ast.Nonlocal)) for x in ast.walk(h)):
+            return None
+        if h.decorator_list and not all(src(d) == "staticmethod" for d in h.decorator_list):
+            return None
+        bound = _bind_args(h, call, is_method)
+        if bound is None:
+            return None
+        stored = set()
+        for st in h.body:
+            stored |= _stored_names(st)
+        if stored & set(bound):
+            return None
+        uses = {}
+        for x in ast.walk(h):
+            if isinstance(x, ast.Name) and x.id in bound:
+                uses[x.id] = uses.get(x.id, 0) + 1
+        for p, v in bound.items():
+            if not _simple_arg(v) and uses.get(p, 0) > 1:
+                return None
+            if not _simple_arg(v) and any(isinstance(y, (ast.For, ast.While, ast.Lambda, ast.ListComp, ast.GeneratorExp, ast.DictComp, ast.SetComp)) for y in ast.walk(h)):
+                return None
+        body = copy.deepcopy(h.body)
+        # rename colliding locals
+        mine = _stored_names(new) | {a.arg for a in new.args.args}
+        ren = {}
+        for nm in stored:
+            if nm in mine:
+                counter[0] += 1
+                ren[nm] = ast.Name(id="%s__%s" % (nm, h.name.strip("_")), ctx=ast.Load())
+        mapping = dict(bound)
+        sub = _Subst(mapping)
+        body = [sub.visit(st) for st in body]
+        if ren:
+            class Ren(ast.NodeTransformer):
+                def visit_Name(self, n_):
+                    if n_.id in ren:
+                        return ast.copy_location(ast.Name(id=ren[n_.id].id, ctx=n_.ctx), n_)
+                    return n_
+            body = [Ren().visit(st) for st in body]
+        return h, body
+
+    def relocate(nodes, line):
+        k = 0
+        for st in nodes:
+            for x in ast.walk(st):
+                if hasattr(x, "lineno") or isinstance(x, (ast.stmt, ast.expr)):
+                    k += 1
+                    x.lineno = line + k * 1e-4
+                    x.end_lineno = x.lineno
+                    x.col_offset = getattr(x, "col_offset", 0) or 0
+                    x.end_col_offset = getattr(x, "end_col_offset", 0) or 0
+        return nodes
+
+    class ExprInline(ast.NodeTransformer):
+        def visit_Call(self, c):
+            self.generic_visit(c)
+            p = prepare(c, True)
+            if p is None:
+                return c
+            h, body = p
+            if body and isinstance(body[0], ast.Expr) and isinstance(body[0].value, ast.Constant) and isinstance(body[0].value.value, str):
+                body = body[1:]
+            if len(body) == 1 and isinstance(body[0], ast.Return) and body[0].value is not None:
+                v = body[0].value
+                relocate([v], c.lineno)
+                return v
+            return c
+
+    def inline_block(stmts):
+        out = []
+        for st in stmts:
+            for attr in ("body", "orelse", "finalbody"):
+                if isinstance(getattr(st, attr, None), list) and not isinstance(st, (ast.FunctionDef, ast.ClassDef, ast.Lambda)):
+                    setattr(st, attr, inline_block(getattr(st, attr)))
+            for hnd in getattr(st, "handlers", []) or []:
+                hnd.body = inline_block(hnd.body)
+            call = None
+            mk = None
+            if isinstance(st, ast.Expr) and isinstance(st.value, ast.Call):
+                call = st.value
+                mk = lambda v: []
+            elif isinstance(st, ast.Assign) and isinstance(st.value, ast.Call):
+                call = st.value
+                mk = lambda v, st=st: [ast.Assign(targets=copy.deepcopy(st.targets), value=v if v is not None else ast.Constant(value=None), lineno=st.lineno)]
+            elif isinstance(st, ast.AugAssign) and isinstance(st.value, ast.Call):
+                call = st.value
+                mk = lambda v, st=st: [ast.AugAssign(target=copy.deepcopy(st.target), op=st.op, value=v if v is not None else ast.Constant(value=None), lineno=st.lineno)]
+            elif isinstance(st, ast.Return) and isinstance(st.value, ast.Call):
+                call = st.value
+                mk = lambda v, st=st: [ast.Return(value=v, lineno=st.lineno)]
+            if call is not None:
+                p = prepare(call, False)
+                if p is not None:
+                    h, body = p
+                    rep = _tail_returns(body, mk)
+                    if rep is not None:
+                        rep = [ast.fix_missing_locations(x) if not hasattr(x, "lineno") else x for x in rep]
+                        relocate(rep, st.lineno)
+                        out += rep
+                        continue
+            out.append(st)
+        return out
+
+    for _ in range(max(1, depth)):
+        before = ast.dump(new)
+        new = ExprInline().visit(new)
+        new.body = inline_block(new.body)
+        if ast.dump(new) == before:
+            break
+    ast.fix_missing_locations(new)
+    for n_ in ast.walk(new):
+        for c in ast.iter_child_nodes(n_):
+            c._parent = n_
+    new._parent = getattr(fn, "_parent", None)
+    return new
 
 
 def unique_defs(fn):
